@@ -68,8 +68,10 @@ fn mark_buffers<const K: u8>(par: &ParallelCommands, buf: &mut Deferred<MarkBuf>
 fn callee<const K: u8>(In(input): In<u32>, mut p: PlainParams, par: ParallelCommands, mut buf: Deferred<MarkBuf>, mut n: Local<u32>) -> u32 { let r = callee_body::<K>(input, &mut p, &mut n); mark_buffers::<K>(&par, &mut buf, *n); r }
 fn callee_cmd<const K: u8>(In(input): In<u32>, mut p: PlainParams, par: ParallelCommands, mut buf: Deferred<MarkBuf>, mut n: Local<u32>) { callee_body::<K>(input, &mut p, &mut n); mark_buffers::<K>(&par, &mut buf, *n); }
 
-fn callee_ps<const K: u8>(In(input): In<u32>, mut ps: ParamSet<(PlainParams,)>, par: ParallelCommands, mut buf: Deferred<MarkBuf>, mut n: Local<u32>) -> u32 { let r = { let mut p = ps.p0(); callee_body::<K>(input, &mut p, &mut n) }; mark_buffers::<K>(&par, &mut buf, *n); r }
-fn callee_cmd_ps<const K: u8>(In(input): In<u32>, mut ps: ParamSet<(PlainParams,)>, par: ParallelCommands, mut buf: Deferred<MarkBuf>, mut n: Local<u32>) { { let mut p = ps.p0(); callee_body::<K>(input, &mut p, &mut n); } mark_buffers::<K>(&par, &mut buf, *n); }
+// (the `ParamSet` forms have no deferred parameter outside the set: Bevy does not report the set's `Commands` as deferred, so a
+// caller that asks the system "do you have deferred buffers?" before applying them gets the wrong answer)
+fn callee_ps<const K: u8>(In(input): In<u32>, mut ps: ParamSet<(PlainParams,)>, mut n: Local<u32>) -> u32 { let mut p = ps.p0(); callee_body::<K>(input, &mut p, &mut n) }
+fn callee_cmd_ps<const K: u8>(In(input): In<u32>, mut ps: ParamSet<(PlainParams,)>, mut n: Local<u32>) { let mut p = ps.p0(); callee_body::<K>(input, &mut p, &mut n); }
 
 /// The callee written against a `DeferredWorld`: everything it queues goes on the world's own command queue.
 fn callee_body_dw<const K: u8>(input: u32, chg: bool, dw: &mut DeferredWorld, n: &mut u32) -> u32
